@@ -43,9 +43,11 @@ CAT = [
      "    def pause(self):\n        self._target._value = self._old_value\n\n    def __repr__(self):\n        return \"_AsyncScopedValueOverrideContext",
      "    def pause(self):\n        self._target._value = self._value\n\n    def __repr__(self):\n        return \"_AsyncScopedValueOverrideContext",
      "C07", True),
-    ("nonasync-pause-no-assert", "asynq/contexts.py",
-     "    def pause(self):\n        assert False, \"Task %s cannot yield while %s is active\" % (\n            self._active_task,\n            self,\n        )\n\n    def resume(self):",
-     "    def pause(self):\n        pass\n\n    def resume(self):", "C06", True),
+    # (removing only the assert in pause() is equivalent for the property: the task then fails with the same
+    #  AssertionError from resume(); both are removed here)
+    ("nonasync-no-assert", "asynq/contexts.py",
+     "    def pause(self):\n        assert False, \"Task %s cannot yield while %s is active\" % (\n            self._active_task,\n            self,\n        )\n\n    def resume(self):\n        assert False, \"Task %s cannot yield while %s is active\" % (\n            self._active_task,\n            self,\n        )",
+     "    def pause(self):\n        pass\n\n    def resume(self):\n        pass", "C06", True),
     ("set-value-no-guard", "asynq/futures.py",
      "        if self.is_computed():\n            raise FutureIsAlreadyComputed(self)\n        self._error = None\n        self._value = value",
      "        self._error = None\n        self._value = value", "C10", True),
@@ -69,8 +71,9 @@ CAT = [
     ("amax-zip", "asynq/tools.py",
      "    max_pair = max(enumerate(iterable), key=lambda pair: keys[pair[0]])\n    return max_pair[1]",
      "    max_pair = max(zip(keys, range(len(keys)), iterable))\n    return max_pair[2]", "C14", True),
-    ("aretry-off-by-one", "asynq/tools.py", "            for i in range(max_tries):",
-     "            for i in range(max_tries + 1):", "C14", True),
+    # (range(max_tries + 1) alone is an equivalent mutant: the re-raise test fires first)
+    ("aretry-swallows-last", "asynq/tools.py", "                    if i + 1 == max_tries:",
+     "                    if i == max_tries:", "C14", True),
     ("take-first-off-by-one", "asynq/generator.py", "        if i == n - 1:", "        if i == n:", "C17", True),
     ("filter-partial-run-collapses", "asynq/debug.py", "            if matches and j == len(text_to_match):",
      "            if matches:", "C18", True),
